@@ -59,27 +59,34 @@ static size_t htp_gzip_decompressor_probe(const unsigned char *data,
     size_t consumed = 0;
 
     if (data[0] == 0x1f && data[1] == 0x8b && data[3] != 0) {
-        if (data[3] & (1 << 3) || data[3] & (1 << 4)) {
-            /* skip past
-             * - FNAME extension, which is a name ended in a NUL terminator
-             * or
-             * - FCOMMENT extension, which is a commend ended in a NULL terminator
-             */
+        /* The optional fields follow the 10-byte header in this order (RFC 1952):
+         * - FEXTRA: a two-byte length (little endian) and that many bytes
+         * - FNAME: a name ended in a NUL terminator
+         * - FCOMMENT: a comment ended in a NUL terminator
+         * - FHCRC: two bytes
+         */
+        size_t pos = 10;
 
-            size_t len;
-            for (len = 10; len < data_len && data[len] != '\0'; len++);
-            consumed = len + 1;
-
-            //printf("skipped %u bytes for FNAME/FCOMMENT header (GZIP)\n", (uint)consumed);
-
-        } else if (data[3] & (1 << 1)) {
-            consumed = 12;
-            //printf("skipped %u bytes for FHCRC header (GZIP)\n", 12);
-
-        } else {
-            //printf("GZIP unknown/unsupported flags %02X\n", data[3]);
-            consumed = 10;
+        if (data[3] & (1 << 2)) {
+            if (pos + 2 > data_len) return 0;
+            pos += 2 + (size_t) data[pos] + ((size_t) data[pos + 1] << 8);
         }
+
+        if (data[3] & (1 << 3)) {
+            while (pos < data_len && data[pos] != '\0') pos++;
+            pos++;
+        }
+
+        if (data[3] & (1 << 4)) {
+            while (pos < data_len && data[pos] != '\0') pos++;
+            pos++;
+        }
+
+        if (data[3] & (1 << 1)) {
+            pos += 2;
+        }
+
+        consumed = pos;
     }
 
     if (consumed > data_len)
